@@ -430,5 +430,6 @@ pub fn parts() -> Vec<Box<dyn PartDyn>> {
         enumerate: Some(enumerate),
         shrink_budget: 30,
         confirm_runs: 2,
+            fuzz: None,
     })]
 }
